@@ -93,6 +93,29 @@ def run(ctx, res):
             for s_ in b['sources']:
                 s_['rows'] = s_['rows'][:max(0, len(s_['rows']) - 2)]
             hists.append([{'case': a, 'out': out}, {'case': b, 'out': out}])
+    # directed: (a) a run that dies midway between two completing runs over the same target (whatever the dying run wrote or staged must not
+    # reach the files of the next run); (b) output_dir runs whose mapping groups only partially overlap: the second run has a group whose
+    # file does not exist yet and that comes, in partition order, before a group whose file holds statements of the first run
+    def tmh(k, v, ck='iri', tt=''):
+        return {'k': k, 'v': v, 'ck': ck, 'tt': tt}
+    EXH = mapcase.EX
+    def two_tm_case(rows_a, rows_b, extra_pom, nquads):
+        pa = [{'preds': [tmh('const', EXH + 'p/p1')], 'objs': [{'m': tmh('ref', 'v'), 'lang': None, 'dt': None, 'joins': []}], 'graphs': []}]
+        if extra_pom:
+            pa.append({'preds': [tmh('const', EXH + 'p/p2')], 'objs': [{'m': tmh('ref', 'v'), 'lang': None, 'dt': None, 'joins': []}], 'graphs': []})
+        return {'cfg': {'nquads': nquads, 'mode': 'PARTIAL-AGGREGATIONS'},
+                'sources': [{'key': 'S0', 'kind': 'csv', 'cols': ['id', 'v'], 'rows': rows_a}, {'key': 'S1', 'kind': 'csv', 'cols': ['id', 'v'], 'rows': rows_b}],
+                'doc': [{'id': EXH + 'tm/A', 'src': 'S0', 'nonasserted': False, 'subj': tmh('templ', EXH + 'a/{id}'), 'sjoins': [], 'classes': [], 'sgraphs': [], 'poms': pa},
+                        {'id': EXH + 'tm/B', 'src': 'S1', 'nonasserted': False, 'subj': tmh('templ', EXH + 'b/{id}'), 'sjoins': [], 'classes': [], 'sgraphs': [],
+                         'poms': [{'preds': [tmh('const', EXH + 'p/p2')], 'objs': [{'m': tmh('ref', 'v'), 'lang': None, 'dt': None, 'joins': []}], 'graphs': []}]}]}
+    for out in [('file', 'kg'), ('dir', 'outd'), ('file', 'out/kg'), ('dir', 'deep/od')]:
+        nq = ctx.rng.random() < 0.5
+        r1 = [[str(i), 'v%d' % i] for i in range(4)]; r2 = [[str(i), 'w%d' % i] for i in range(3)]
+        first = two_tm_case(r1, r2, False, nq)
+        dying = two_tm_case([[str(i), 'dying%d' % i] for i in range(5)], r2, True, nq)
+        last = two_tm_case(r1[:2], r2[:1], True, nq)
+        hists.append([{'case': first, 'out': out}, {'case': dying, 'out': out, 'break_source': 1}, {'case': last, 'out': out}])
+        hists.append([{'case': first, 'out': out}, {'case': last, 'out': out}])
     jobs, dirs = [], []
     pre = {'kg.nt': '<http://old/s> <http://old/p> "left over" .\n', 'outd/0-0-0-0.nt': '<http://old/s> <http://old/p> "left over group" .\n',
            'outd/1-1-1-1.nt': '<http://old/s> <http://old/p> "stale" .\n', 'out/kg.nq': '<http://old/s> <http://old/p> "old quad" <http://old/g> .\n'}
